@@ -78,6 +78,9 @@ def gen_cc_doc(rng, names_all):
         if c not in cds:
             cds.add(c)
             stmts.append(["cdecay", c])
+            if rng.random() < 0.2:
+                # the same CDecay statement given again (a user file read after the main file): each statement gets its table
+                stmts.append(["cdecay", c])
     rng.shuffle(stmts)
     return stmts
 
